@@ -57,13 +57,15 @@ def name_strings(alpha, maxlen, rng, extra, extralen):
     return out
 
 
-def names_phase(tier, rng, odfdo, known):
+def names_phase(tier, rng, odfdo, known, only=None):
     import odfdo.table as T
     violations, known_seen, errors, cov = [], [], [], {}
     for what, alpha, checker, maxlen in (('table-name', TAB_ALPHA, 'chk_tab', 3 if tier == 'quick' else 4),
                                          ('named-range-name', NR_ALPHA, 'chk_nr', 3 if tier == 'quick' else 4)):
-        strs = name_strings(alpha, maxlen, rng, 1500 if tier == 'quick' else 20000, 7)
-        if what == 'named-range-name':
+        if only and only[0] != what:
+            continue
+        strs = [only[1]] if only else name_strings(alpha, maxlen, rng, 1500 if tier == 'quick' else 20000, 7)
+        if what == 'named-range-name' and not only:
             strs += ['R1C1', 'r10c2', 'R1C', 'RC1', 'AB12', 'A1', '1abc', '_1', 'a1b', 'R01C01', 'Rr1C1', ' R1C1 ', 'é1', 'R1C1_']
         terms = []
         for s in strs:
@@ -99,7 +101,7 @@ def names_phase(tier, rng, odfdo, known):
 
 def run(tier, seed, replay=None):
     return tr.run_table_check('C07', tier, seed, replay, 'chk07', LAYERS, SOFT, tl.OPS_CORE, extra=names_phase,
-                              prebuild=write_gen, extra_targets=('Gen_Names', 'Gen_Namesok'),
+                              prebuild=write_gen, extra_targets=('Tablechk', 'Gen_Names', 'Gen_Namesok'),
                               trusted=TRUSTED, modelled=MODELLED,
                               assumptions=['operations carry repeats >= 1 and integer coordinates of either sign',
                                            'tables consist of table:table-column elements followed by table:table-row elements',
